@@ -29,6 +29,7 @@ typedef struct vf_thread_s {
   int          prio;         /* PCT */
   uint64_t     npoints;      /* points executed by this thread (script policy) */
   uint64_t     ncas;         /* weak CAS executed by this thread (script policy) */
+  volatile void* sb_addr; unsigned sb_size; unsigned long long sb_val; int sb_loads_left;   /* simulated store buffer: at most one pending store */
   uint64_t     rng;
   vf_thread_fn fn;
   void*        arg;
@@ -47,6 +48,7 @@ static __thread uint64_t     t_rng_unmanaged = 0;
 /* statistics (updated by the baton holder only in baton mode; atomics in delay mode) */
 static uint64_t g_points, g_switches, g_forced, g_spurious, g_delays, g_hash = 1469598103934665603ull;
 static int      g_budget_exceeded = 0;
+static uint64_t g_delayed_stores = 0, g_loads_overtaking = 0;
 static uint64_t g_pct_change[8];
 static int      g_pct_next_low = -1;
 /* script policy */
@@ -177,6 +179,29 @@ static void release_all(void) {
   for (int i = 0; i < g_nthreads; i++) { if (g_threads[i] != t_self) sem_post(&g_threads[i]->sem); }
 }
 
+
+/* ---- simulated store buffer (baton mode only) ---- */
+static void sb_flush(vf_thread_t* t) {
+  if (t == NULL || t->sb_addr == NULL) return;
+  volatile void* a = t->sb_addr; t->sb_addr = NULL;
+  switch (t->sb_size) {
+    case 1: __atomic_store_n((volatile uint8_t*)a,  (uint8_t)t->sb_val,  __ATOMIC_RELEASE); break;
+    case 2: __atomic_store_n((volatile uint16_t*)a, (uint16_t)t->sb_val, __ATOMIC_RELEASE); break;
+    case 4: __atomic_store_n((volatile uint32_t*)a, (uint32_t)t->sb_val, __ATOMIC_RELEASE); break;
+    default: __atomic_store_n((volatile uint64_t*)a, (uint64_t)t->sb_val, __ATOMIC_RELEASE); break;
+  }
+}
+int vf_store_delay_slow(volatile void* addr, unsigned size, unsigned long long value, const char* func) {
+  (void)func;
+  vf_thread_t* self = t_self;
+  if (vf_mode != VF_MODE_BATON || self == NULL || g_free_run || g_cfg.tso_den == 0) return 0;
+  /* (the point of this store already flushed an older pending store: stores of one thread stay in order) */
+  if ((xs64(&self->rng) >> 12) % g_cfg.tso_den != 0) return 0;
+  self->sb_addr = addr; self->sb_size = size; self->sb_val = value; self->sb_loads_left = 2;
+  g_delayed_stores++;
+  return 1;
+}
+
 static void baton_point(const char* func, int force) {
   vf_thread_t* self = t_self;
   if (self == NULL || g_free_run) { if (force) sched_yield(); return; }
@@ -251,13 +276,19 @@ static void delay_point(const char* func, int force) {
 }
 
 void vf_point_slow(int kind, const volatile void* addr, const char* func) {
-  (void)kind; (void)addr;
   int m = vf_mode;
+  if (m == VF_MODE_BATON && t_self != NULL && t_self->sb_addr != NULL) {
+    /* a pending store becomes visible before any operation of its thread that is not a load, before a load of the same location
+       (store forwarding) and before the 3rd load after it */
+    if (kind != 0 /* VF_K_LOAD */ || addr == t_self->sb_addr || t_self->sb_loads_left <= 0) sb_flush(t_self);
+    else { t_self->sb_loads_left--; g_loads_overtaking++; }
+  }
   if (m == VF_MODE_BATON) baton_point(func, 0);
   else if (m == VF_MODE_DELAY) delay_point(func, 0);
 }
 void vf_yield_slow(const char* func) {
   int m = vf_mode;
+  if (m == VF_MODE_BATON) sb_flush(t_self);
   if (m == VF_MODE_BATON) baton_point(func, 1);
   else if (m == VF_MODE_DELAY) delay_point(func, 1);
 }
@@ -283,6 +314,7 @@ int vf_spurious_slow(const char* func) {
   return 1;
 }
 
+void vf_flush(void) { if (vf_mode == VF_MODE_BATON) sb_flush(t_self); }
 void vf_user_point(const char* what) { if (vf_mode != 0) vf_point_slow(13, NULL, what); }
 void vf_user_yield(const char* what) { if (vf_mode != 0) vf_yield_slow(what); else sched_yield(); }
 
@@ -293,6 +325,7 @@ static void* trampoline(void* p) {
   t_self = t;
   if (g_cfg.mode == VF_MODE_BATON) { while (sem_wait(&t->sem) != 0) { } }
   t->fn(t->arg);
+  sb_flush(t);
   /* finished: hand the baton on and continue unmanaged (thread-exit destructors then run concurrently) */
   if (g_cfg.mode == VF_MODE_BATON) {
     pthread_mutex_lock(&g_mu);
@@ -350,7 +383,7 @@ void vf_run_all(void) {
 void vf_sched_get_stats(vf_sched_stats_t* out) {
   out->points = __atomic_load_n(&g_points, __ATOMIC_RELAXED); out->switches = __atomic_load_n(&g_switches, __ATOMIC_RELAXED); out->forced_switches = __atomic_load_n(&g_forced, __ATOMIC_RELAXED);
   out->spurious = __atomic_load_n(&g_spurious, __ATOMIC_RELAXED); out->delays = __atomic_load_n(&g_delays, __ATOMIC_RELAXED); out->sched_hash = __atomic_load_n(&g_hash, __ATOMIC_RELAXED);
-  out->budget_exceeded = g_budget_exceeded; out->threads_created = g_nthreads; out->script_fired = g_script_fired;
+  out->budget_exceeded = g_budget_exceeded; out->threads_created = g_nthreads; out->script_fired = g_script_fired; out->delayed_stores = g_delayed_stores; out->loads_overtaking = g_loads_overtaking;
 }
 long vf_thread_points(int index) { return (index >= 0 && index < g_nthreads ? (long)g_threads[index]->npoints : -1); }
 long vf_thread_cas_count(int index) { return (index >= 0 && index < g_nthreads ? (long)g_threads[index]->ncas : -1); }
